@@ -1,13 +1,14 @@
 /-
   C12 — queued objects are delivered exactly once, in FIFO/priority order, in capacity
-  Property theorems only (the process-layer model is CimbaModel/Sim; helper lemmas in CimbaModel/Sim/*).
+  Property theorems only (the process-layer model is CimbaModel/Sim; helper lemmas in CimbaModel/Sim/S2*).
 -/
 import CimbaModel.Sim.Basic
 import CimbaModel.HashHeap.Orders
+import CimbaModel.Sim.S2QCalls
 
 namespace CimbaModel.Props.C12
-open CimbaModel CimbaModel.Sim CimbaModel.Event CimbaModel.Generated CimbaModel.HashHeap.SpecOrders
-open CimbaModel.HashHeap (HTag Item Order HH)
+open CimbaModel CimbaModel.Sim CimbaModel.Event CimbaModel.Generated CimbaModel.HashHeap.SpecOrders CimbaModel.KPQ
+open CimbaModel.HashHeap (HTag Item Order HH WF abs)
 
 /-- the object priority queue's comparison found in the C source is the documented order:
     higher priority first, equal priorities in put (handle) order -/
@@ -15,5 +16,180 @@ theorem pq_order_is_lex (a b : HTag) : compare_func a b = true ↔ pqLt a b :=
   CimbaModel.HashHeap.Orders.compare_func_iff a b
 
 theorem pq_order_total : TotalOnKeys compare_func := inferInstance
+
+/-! ### object queues: FIFO, exactly once, capacity — one equation -/
+
+/-- what `OQInv` says: the sequence of objects put so far is the sequence delivered so far followed by the queue
+    contents.  Hence: **delivery is in put order** (the delivered sequence is a prefix of the put sequence); every object
+    put is delivered or still queued, **exactly once** (as multisets put = delivered + queued, nothing invented,
+    duplicated or lost); and **the length never exceeds the capacity** -/
+theorem oq_invariant_unfolded {w : World} (hi : OQInv w) {q : Nat} {x : OQ} (hx : w.oqs[q]? = some x) :
+    x.putLog = x.gotLog ++ x.items ∧
+    x.gotLog <+: x.putLog ∧
+    x.putLog.Perm (x.gotLog ++ x.items) ∧
+    x.putLog.length = x.gotLog.length + x.items.length ∧
+    x.items.length ≤ x.cap := by
+  have ok := hi.get hx
+  refine ⟨ok.fifo, ⟨x.items, ok.fifo.symm⟩, by rw [ok.fifo], by rw [ok.fifo]; simp, ok.inCap⟩
+
+theorem oq_invariant_dispatch {w w' : World} (hi : OQInv w) (hd : dispatch w = some w') : OQInv w' :=
+  OQInv.preserved.dispatch hi hd
+
+theorem oq_invariant_reachable {w : World} (hi : OQInv w) (fuel : Nat) : OQInv (runAll fuel w) :=
+  OQInv.preserved.runAll fuel w hi
+
+theorem oq_invariant_initial (w : World)
+    (h : ∀ (q : Nat) (x : OQ), w.oqs[q]? = some x → x.items = [] ∧ x.putLog = [] ∧ x.gotLog = []) : OQInv w := by
+  intro q x hx
+  obtain ⟨h1, h2, h3⟩ := h q x hx
+  exact ⟨by rw [h1, h2, h3]; rfl, by rw [h1]; exact Nat.zero_le _⟩
+
+/-- a successful get delivers the head of the queue, which is the next undelivered element of the put sequence -/
+theorem oq_get_delivers_next {w : World} (hi : OQInv w) (p : Pid) {q : Nat} {x : OQ} (hx : w.oqs[q]? = some x)
+    {o : Nat} {rest : List Nat} (hit : x.items = o :: rest) :
+    (oqGetLoop w p q).2 = .ret sigSuccess s!"obj={o}" ∧ x.putLog[x.gotLog.length]? = some o := by
+  rw [oqGetLoop_delivers p hx hit]
+  exact ⟨rfl, oq_delivers_in_put_order (hi.get hx) hit⟩
+
+/-- **a get that does not return success delivers nothing**: it reports `obj=0` and leaves every queue as it was -/
+theorem oq_failed_get_delivers_nothing (w : World) (p : Pid) (q : Nat) (sig : Int) (hs : sig ≠ sigSuccess) :
+    (resumeFrame w p (.oqGet q) sig).1.oqs = w.oqs ∧
+    ((resumeFrame w p (.oqGet q) sig).2 = .ret sig "obj=0" ∨
+      (w.oqs[q]? = none ∧ (resumeFrame w p (.oqGet q) sig).2 = .ret sig "")) :=
+  oqGet_failed w p q sig hs
+
+/-! ### priority queues -/
+
+/-- what `PQInv` says (as long as fewer than 2^64 − 1 objects have ever been put into the queue, i.e. the 64-bit handle
+    counter has not wrapped): the concrete hashheap is well-formed; **the number of entries does not exceed the
+    capacity**; the handles put so far are pairwise distinct, and **every one of them is queued, or delivered, or
+    cancelled — exactly one of the three** (the three lists together are a permutation of the list of handles put, which
+    has no duplicates: nothing invented, duplicated or lost) -/
+theorem pq_invariant_unfolded {w : World} (hi : PQInv w) {k : Nat} {x : PQ} (hx : w.pqs[k]? = some x)
+    (hctr : x.putLog.length + 1 < 2 ^ 64) :
+    WF compare_func x.queue ∧
+    x.queue.count ≤ x.cap ∧
+    (keys (abs x.queue) ++ x.gotLog ++ x.cancelLog).Perm x.putLog ∧
+    x.putLog.Nodup ∧
+    (keys (abs x.queue) ++ x.gotLog ++ x.cancelLog).Nodup ∧
+    (abs x.queue).length = x.queue.count := by
+  have ok := hi.get hx hctr
+  exact ⟨ok.wf, ok.inCap, ok.part, ok.nodup, ok.part.nodup_iff.2 ok.nodup, HashHeap.abs_length _⟩
+
+theorem pq_invariant_dispatch {w w' : World} (hi : PQInv w) (hd : dispatch w = some w') : PQInv w' :=
+  PQInv.preserved.dispatch hi hd
+
+theorem pq_invariant_reachable {w : World} (hi : PQInv w) (fuel : Nat) : PQInv (runAll fuel w) :=
+  PQInv.preserved.runAll fuel w hi
+
+theorem pq_invariant_initial (w : World)
+    (h : ∀ (k : Nat) (x : PQ), w.pqs[k]? = some x →
+      x.putLog = [] ∧ x.gotLog = [] ∧ x.cancelLog = [] ∧ ∃ e, 1 ≤ e ∧ e ≤ 31 ∧ x.queue = mkHH e) : PQInv w := by
+  intro k x hx _
+  obtain ⟨h1, h2, h3, e, he1, he31, hq⟩ := h k x hx
+  obtain ⟨s, hinit, hwf, habs, hcnt⟩ := CimbaModel.HashHeap.init_spec (lt := compare_func) e he1 he31
+  have hs : x.queue = s := by rw [hq]; unfold mkHH; rw [hinit]
+  have hc0 : s.count = 0 := by rw [← HashHeap.abs_length, habs]; rfl
+  refine ⟨by rw [hs]; exact hwf, by rw [hs, hc0]; exact Nat.zero_le _, by rw [hs, hcnt.1, h1]; rfl, ?_, ?_, ?_, by rw [h1]; exact List.nodup_nil⟩
+  · intro j hj; rw [hs, habs] at hj; cases hj
+  · intro j hj; rw [h1] at hj; cases hj
+  · rw [hs, habs, h1, h2, h3]; exact List.Perm.refl _
+
+/-- **a get delivers the entry that goes before all others under the documented order**: every entry that stays behind
+    has lower priority, or equal priority and a larger handle (a later put); the object handed out is the payload stored
+    under the delivered handle; exactly that entry leaves the queue -/
+theorem pq_get_delivers_first {w : World} (p : Pid) {k : Nat} {x : PQ} (hx : w.pqs[k]? = some x)
+    (hwf : WF compare_func x.queue) (hpos : x.queue.count > 0) :
+    ∃ q' t, HashHeap.dequeue compare_func x.queue = .ok (q', some t) ∧
+      pqGetLoop w p k =
+        (signal (recordPQ { w with pqs := w.pqs.set! k { x with queue := q', gotLog := x.gotLog ++ [t.key] } } k) x.rear,
+          .ret sigSuccess s!"obj={t.item.a}") ∧
+      KPQ.lookup (abs x.queue) t.key = some (KPQ.norm t) ∧
+      (abs x.queue).Perm (KPQ.norm t :: abs q') ∧
+      (∀ e ∈ abs q', t.i > e.i ∨ (t.i = e.i ∧ t.key < e.key)) ∧
+      q'.count = x.queue.count - 1 :=
+  pqGetLoop_delivers p hx hwf hpos
+
+/-- a put stores the object, with its priority, under a handle that was never used before -/
+theorem pq_put_stores {w : World} (p : Pid) {k : Nat} {x : PQ} (hx : w.pqs[k]? = some x) (ok : PQOK x)
+    (hctr : x.putLog.length + 2 < 2 ^ 64) (hroom : x.queue.count < x.cap) (obj : Nat) (pri : Int) (v : Nat)
+    {q' : HH} {h : Nat} (he : HashHeap.enqueue compare_func x.queue ⟨obj, 0, 0, 0⟩ 0 0 pri = .ok (q', h)) :
+    h = x.queue.counter + 1 ∧
+      (pqPutLoop w p k obj pri v).2 = .ret sigSuccess s!"h={h}" ∧
+      (abs q').Perm (⟨h, 0, ⟨obj, 0, 0, 0⟩, 0, pri⟩ :: abs x.queue) ∧
+      h ∉ x.putLog ∧ h ∉ keys (abs x.queue) :=
+  pqPutLoop_stores p hx ok hctr hroom obj pri v he
+
+/-- **cancellation by handle** removes exactly the entry named, reports whether there was one, and leaves every other
+    entry (payload, priority) as it was -/
+theorem pq_cancel_exact {x : PQ} (hwf : WF compare_func x.queue) {h : Nat} (h0 : h ≠ 0) :
+    ∃ q', HashHeap.remove compare_func x.queue h = .ok (q', decide (h ∈ keys (abs x.queue))) ∧
+      (abs q').Perm (KPQ.remove (abs x.queue) h) ∧
+      (∀ h2, h2 ≠ h → KPQ.lookup (abs q') h2 = KPQ.lookup (abs x.queue) h2) ∧ KPQ.lookup (abs q') h = none :=
+  pqCancel_exact hwf h0
+
+/-- **reprioritisation by handle** changes the priority of exactly the entry named; its payload and every other entry
+    stay; later gets therefore deliver according to the new priorities (`pq_get_delivers_first`) -/
+theorem pq_reprio_exact {x : PQ} (hwf : WF compare_func x.queue) {h : Nat} (hk : h ∈ keys (abs x.queue)) (pri : Int) :
+    ∃ q', HashHeap.reprioritize compare_func x.queue h 0 pri = .ok q' ∧
+      (abs q').Perm (KPQ.reprio (abs x.queue) h 0 pri) ∧
+      KPQ.lookup (abs q') h = (KPQ.lookup (abs x.queue) h).map (fun t => { t with d := 0, i := pri }) ∧
+      (∀ h2, h2 ≠ h → KPQ.lookup (abs q') h2 = KPQ.lookup (abs x.queue) h2) :=
+  pqReprio_exact hwf hk pri
+
+/-- **the position query** of a queued handle is 1 + the number of queued entries that would be delivered before it -/
+theorem pq_position_counts_those_ahead {x : PQ} (hwf : WF compare_func x.queue) {h : Nat} (hk : h ∈ keys (abs x.queue)) :
+    ∃ t, KPQ.lookup (abs x.queue) h = some t ∧
+      pqPosition x h = ((abs x.queue).filter (fun e => compare_func e t)).length + 1 :=
+  pqPosition_spec hwf hk
+
+/-- … it is 1 exactly for the handle that the next get delivers, and 0 for a handle that is not queued -/
+theorem pq_position_one_iff_next {x : PQ} (hwf : WF compare_func x.queue) {h : Nat} (hk : h ∈ keys (abs x.queue)) :
+    pqPosition x h = 1 ↔ ∃ t, KPQ.lookup (abs x.queue) h = some t ∧ IsMin compare_func (abs x.queue) t :=
+  pqPosition_one_iff hwf hk
+
+/-- … and it is the index of delivery: each get that delivers another entry lowers the position of every handle that
+    stays queued by exactly one, so a handle at position `k` is handed out by the `k`-th get from now if nothing else
+    changes; the position query therefore agrees with the order in which objects will actually be delivered -/
+theorem pq_position_is_delivery_index {x : PQ} (hwf : WF compare_func x.queue) (hpos : 0 < x.queue.count) {h : Nat}
+    (hk : h ∈ keys (abs x.queue)) (hne : h ≠ (x.queue.tag 1).key) :
+    ∃ q', HashHeap.dequeue compare_func x.queue = .ok (q', some (x.queue.tag 1)) ∧ WF compare_func q' ∧
+      h ∈ keys (abs q') ∧ pqPosition { x with queue := q' } h + 1 = pqPosition x h :=
+  pqPosition_after_get hwf hpos hk hne
+
+theorem pq_position_zero_if_absent {x : PQ} (hwf : WF compare_func x.queue) {h : Nat} (hk : h ∉ keys (abs x.queue)) :
+    pqPosition x h = 0 :=
+  pqPosition_absent hwf hk
+
+/-- the length query is the number of queued entries -/
+theorem pq_length_is_count (x : PQ) : (abs x.queue).length = x.queue.count := HashHeap.abs_length _
+
+/-- a get that does not return success delivers nothing and leaves every priority queue as it was -/
+theorem pq_failed_get_delivers_nothing (w : World) (p : Pid) (k : Nat) (sig : Int) (hs : sig ≠ sigSuccess) :
+    (resumeFrame w p (.pqGet k) sig).1.pqs = w.pqs ∧
+    ((resumeFrame w p (.pqGet k) sig).2 = .ret sig "obj=0" ∨
+      (w.pqs[k]? = none ∧ (resumeFrame w p (.pqGet k) sig).2 = .ret sig "")) := by
+  simp only [resumeFrame]
+  cases hx : w.pqs[k]? with
+  | none => exact ⟨rfl, Or.inr ⟨rfl, rfl⟩⟩
+  | some x =>
+    simp only [hs, if_false]
+    exact ⟨by simp, Or.inl trivial⟩
+
+/-! ### the hypotheses are satisfiable -/
+
+example : OQInv { oqs := #[{ cap := 3, front := 0, rear := 1 }] } := by
+  apply oq_invariant_initial
+  intro q x hx
+  rcases q with _ | q
+  · simp at hx; subst hx; exact ⟨rfl, rfl, rfl⟩
+  · simp at hx
+
+example : PQInv { pqs := #[{ cap := 3, queue := mkHH 3, front := 0, rear := 1 }] } := by
+  apply pq_invariant_initial
+  intro k x hx
+  rcases k with _ | k
+  · simp at hx; subst hx; exact ⟨rfl, rfl, rfl, 3, by decide, by decide, rfl⟩
+  · simp at hx
 
 end CimbaModel.Props.C12
